@@ -71,6 +71,18 @@ claim("C08", "exploration",
       TB + " Leaf rule taken from the class documentation and mirrored by the independent builder.",
       "DESIGN.md 4 (C08)")
 
+claim("C09", "exploration",
+      "runtime monitoring: numpy global-RNG tap (event log of the bootstrap draws) + own kdq-tree/router as reference "
+      "model; decision recomputed per update from own leaf counts and the logged draws",
+      "Hundreds (thousands thorough) of batch histories and adaptively generated streams whose accumulated divergence is "
+      "steered across the critical value in both directions; every update of the real KdqTreeBatch / KdqTreeStreaming runs "
+      "under an interposer on numpy.random that logs the bootstrap draws; the monitor checks the log's shape (exactly "
+      "bootstrap_samples draws of 2 x sample size from the corrected reference leaf distribution), recomputes the critical "
+      "value from those draws and the divergence from an independent tree, and requires drift exactly when the rule says "
+      "(incl. the run-length 'in a row' rule, silent periods, reference replacement after drift).  Sampled.",
+      TB + " scipy.stats.entropy / numpy.quantile trusted; the detector must draw through numpy.random.choice.",
+      "DESIGN.md 4 (C09)")
+
 NOT_YET = "check not built yet in this revision of /verif (planned: see DESIGN.md section 4); nothing is claimed for it"
 
 
